@@ -431,6 +431,22 @@ Definition step11 (q : q11) (a : action) : option q11 :=
 Definition init11 : q11 :=
   {| out11 := []; done11 := []; ph11_ := P11Wait; starter11 := None; src11 := ScheduledTask; upg11 := false; must_reboot11 := false |}.
 
+(* addition to step11: an on-demand request sent while the machine waits for the reboot must lead to the
+   reboot question being asked again (as on-demand) before the next ping goes out *)
+Record q11x := { base11 : q11; askdue11 : bool }.
+Definition step11x (q : q11x) (a : action) : option q11x :=
+  match step11 (base11 q) a with
+  | None => None
+  | Some b =>
+      let keep := Some {| base11 := b; askdue11 := askdue11 q |} in
+      match a with
+      | ARequest _ OnDemand => match ph11_ (base11 q) with P11Reboot => Some {| base11 := b; askdue11 := true |} | _ => keep end
+      | APolicy (QRebootAllowed OnDemand) _ | AEvent (EvState Idle) => Some {| base11 := b; askdue11 := false |}
+      | AHttp _ _ => if askdue11 q then None else keep
+      | _ => keep
+      end
+  end.
+
 (* ------------------------------------------------------------------ C10 *)
 (* Every update outcome is reported exactly once: after the attempts of a check succeed, the path taken
    (unparseable body / plan refused / policy deferred or denied / install attempted with per-app results)
